@@ -9,7 +9,7 @@ from .interp import InterpBase, Frame, parse_expr
 
 SPEC_FUNCS = {"forall", "exists", "implies", "ite", "old", "seq_eq", "iff", "let", "count_true",
               "is_none", "opt_val", "strlen", "char_at", "substr", "in_re", "fresh_int", "imin", "imax",
-              "to_real", "distinct", "seq", "lam_seq", "str_of_int", "absv", "present"}
+              "to_real", "distinct", "seq", "lam_seq", "str_of_int", "absv", "present", "iter_pos"}
 
 
 class EvalMixin(InterpBase):
@@ -120,6 +120,8 @@ class EvalMixin(InterpBase):
             if is_and and not t:
                 return v if not is_z3(v) or not z3.is_bool(v) else False
             if not is_and and t:
+                if isinstance(v, OptV):
+                    return v.val
                 return v if not (is_z3(v) and z3.is_bool(v)) else True
         return v
 
@@ -207,6 +209,10 @@ class EvalMixin(InterpBase):
 
     def _class_by_name(self, fr, name):
         ci = self.index.resolve_class_name(fr.module, name)
+        if ci is None:
+            for mn in self.live["modules"]:
+                if self.index.has_module(mn) and name in self.index.module(mn).classes:
+                    return self.index.module(mn).classes[name]
         if ci is None and self.top is not None:
             try:
                 mod = self.top.key.split(":")[0]
@@ -353,12 +359,14 @@ class EvalMixin(InterpBase):
             raise Unsupported("filter comprehension producing structured values")
         p = z3.And(conds)
         if isinstance(val, RecV):
-            elem = desc_of(val)
+            if not (isinstance(elt, ast.Name) and isinstance(g.target, ast.Name) and elt.id == g.target.id):
+                raise Unsupported("filter comprehension building new records")
+            elem = src.elem
             R = fresh(("list", elem), "filt", self.run)
             allpass = z3.ForAll([j], z3.Implies(z3.And(j >= 0, j < n), p))
             same = z3.And(zint(R.length) == n,
                           z3.ForAll([j], z3.Implies(z3.And(j >= 0, j < n),
-                                                    z3.And([R.arr[f][j] == zval(val.fields[f]) for f in val.fields]))))
+                                                    z3.And([R.arr[a][j] == src.arr[a][j] for a in src.arr]))))
             self.run.assume(zint(R.length) <= n)
             self.run.assume(z3.Implies(allpass, same))
             # every element of R satisfies p (expressed on R's own elements when elt is the loop variable)
@@ -584,10 +592,17 @@ class EvalMixin(InterpBase):
             raise Unsupported(f"instantiate external class {c.key}")
         vc = self.top.value_classes if self.top else {}
         obj = Obj(ci, {})
-        init = self.index.find_method(ci, "__init__")
+        init, use_dc = None, False
+        for k in self.index.mro(ci):
+            if "__init__" in k.methods:
+                init = k.methods["__init__"]
+                break
+            if k.is_dataclass:
+                use_dc = True
+                break
         if init is not None:
             self.call_function(init, [obj] + args, kwargs, fr, force_inline=True)
-        elif any(k.is_dataclass for k in self.index.mro(ci)):
+        elif use_dc:
             self.dataclass_init(obj, ci, args, kwargs, fr)
         elif self._is_namedtuple(ci):
             for (n, d, ann), a in zip(ci.ann_fields, args):
@@ -595,7 +610,10 @@ class EvalMixin(InterpBase):
             for n, v in kwargs.items():
                 obj.fields[n] = v
             return RecV(ci.name, dict(obj.fields))
-        if ci.name in vc or self._is_frozen_dataclass(ci):
+        if ci.name in vc:
+            d = vc[ci.name]
+            return RecV(ci.name, {f: obj.fields.get(f) for f in d}, ("rec", ci.name, d))
+        if self._is_frozen_dataclass(ci):
             return RecV(ci.name, dict(obj.fields))
         return obj
 
